@@ -10,6 +10,7 @@ def optNat (s : String) : Option (Option Nat) := if s == "-" then some none else
 def parseChild (s : String) : Option Child :=
   match s.toList with
   | 'p' :: r => (String.ofList r).toNat?.map .plain
+  | 'x' :: r => (String.ofList r).toNat?.map .marker
   | 'c' :: r => match (String.ofList r).splitOn ":" with
       | [a, b] => do pure (.choice (← a.toNat?) (← optNat b))
       | _ => none
@@ -27,9 +28,9 @@ def parseField (s : String) : Option FieldDesc :=
 
 def parseMsg (s : String) : Option (Nat × MsgDesc) :=
   match s.splitOn "|" with
-  | [id, nm, dl, ir, rs, po, fs] => do
+  | [id, nm, dl, ir, rs, po, nv, fs] => do
       let fields ← if fs == "-" then some [] else (fs.splitOn ";").mapM parseField
-      pure (← id.toNat?, ⟨nm, dl == "1", ir == "1", ← optNat rs, po == "1", fields⟩)
+      pure (← id.toNat?, ⟨nm, dl == "1", ir == "1", ← optNat rs, po == "1", nv == "1", fields⟩)
   | _ => none
 
 def showOut : Out → String
